@@ -105,6 +105,9 @@ def _menu():
             m["n_ene_blocks_eql"] = 1
             m["n_sr_blocks_eql"] = r.choice([1, 2])
             m["n_batch"] = r.choice([1, 2])
+            if random.Random(121200 + k).random() < 0.25:
+                # the fourth documented ad_mode: its own sampler entry point (propagate_phaseless_ad_1), reverse mode w.r.t. the two-body operator
+                m["ad_mode"] = "2rdm"
         if m["kind"] == "batch":
             m["n_walkers"] = r.choice([4, 6, 8])
             nb = [b for b in (1, 2, m["n_walkers"]) ]
@@ -505,6 +508,7 @@ def _execute_driver(cfg, ctx):
         if nac:
             ctx.probe("not_a_comm_runs", 1)
     ctx.probe("driver_runs", 1)
+    ctx.probe("two_rdm_mode_runs", cfg["ad_mode"] == "2rdm")
     ref_name, ref = outs[0]
     raw0 = ref["files"].get("samples_raw.dat", b"")
     for name, o in outs[1:]:
